@@ -270,12 +270,15 @@ def check_routes(case: dict):
     g = M.g_make(n, n, bits)
     a = M.adj(g)
     m = L.lattice(g)
-    for s, e in case["queries"]:
+    for k, (s, e) in enumerate(case["queries"]):
         s, e = tuple(s), tuple(e)
         dist = M.bfs(a, s)
         if e not in dist:
             continue
-        res = call("C02:routes", m.find_shortest_path, s, e)
+        # endpoints as python tuples, int64 arrays or - where the coordinates fit - int8 arrays (what solutions loaded from a minimal file hold)
+        form = (k + case.get("form0", 0)) % 3
+        s_arg, e_arg = (s, e) if form == 0 else ((np.array(s), np.array(e)) if (form == 1 or n > 128) else (np.array(s, dtype=np.int8), np.array(e, dtype=np.int8)))
+        res = call("C02:routes", m.find_shortest_path, s_arg, e_arg)
         path = L.as_cells(np.asarray(res))
         prob = M.path_problems(g, a, path, start=s, end=e, need_shortest=False, need_simple=False)
         require(prob is None, "C02:routes:unsound", f"{n}x{n} {s}->{e}: {prob}")
@@ -319,7 +322,21 @@ def _routes(draw, sizes):
         r1 = draw(st.sampled_from(routes))
         r2 = draw(st.sampled_from(routes))
         qs.append([list(draw(st.sampled_from(r1))), list(draw(st.sampled_from(r2)))])
-    return {"n": n, "routes": [[list(q) for q in r] for r in routes], "queries": qs}
+    # a small ring hanging on one of the corridors close to an endpoint (a cycle right where the search starts or ends)
+    for _ in range(draw(st.integers(0, 2))):
+        r0 = draw(st.sampled_from(routes))
+        i, j = draw(st.sampled_from(r0[: max(2, len(r0) // 8)] + r0[-max(2, len(r0) // 8):]))
+        if i + 1 < n and j + 2 < n:
+            routes.append([(i, j), (i, j + 1), (i, j + 2), (i + 1, j + 2), (i + 1, j + 1), (i + 1, j), (i, j)])
+    # rings where the distance to a corner is 127 / 128 steps (where one-byte arithmetic on distances would wrap)
+    for r0 in list(routes)[:3]:
+        for (i, j) in r0:
+            if (i + j in (127, 128) or (2 * (n - 1) - i - j) in (127, 128)) and i + 1 < n and j + 2 < n and draw(st.booleans()):
+                routes.append([(i, j), (i, j + 1), (i, j + 2), (i + 1, j + 2), (i + 1, j + 1), (i + 1, j), (i, j)])
+                break
+    for _ in range(draw(st.integers(0, 2))):
+        qs.append([[draw(st.integers(0, 8)), draw(st.integers(0, 8))], [n - 1 - draw(st.integers(0, 3)), n - 1 - draw(st.integers(0, 3))]])
+    return {"n": n, "routes": [[list(q) for q in r] for r in routes], "queries": qs, "form0": draw(st.integers(0, 2))}
 
 
 def check_twins(case: dict):
@@ -356,6 +373,66 @@ def _twins_strategy():
     from mzverif.props import C13
 
     return C13._twins()
+
+
+@st.composite
+def _ring_gadget(draw):
+    """a small ring whose cells lie 125..131 steps (or a drawn distance) from the goal, with one corridor from a ring cell to the goal:
+    the two ways round the ring differ by two steps, and which one is shorter is decided right where one-byte distance arithmetic wraps"""
+    n = draw(st.sampled_from([70, 100, 127, 128, 66]))
+    tall = draw(st.booleans())
+    h, w = (3, 2) if tall else (2, 3)
+    D = draw(st.sampled_from([128, 127, 129, 126, 130, 131, 125]) | st.integers(4, 2 * (n - 1) - 6))
+    # goal = bottom-right corner; ring top-left (i, j) with (n-1-i) + (n-1-j) = D
+    tot = 2 * (n - 1) - D
+    lo_i, hi_i = max(0, tot - (n - 1 - w)), min(n - 1 - h, tot)
+    i = draw(st.integers(lo_i, hi_i)) if lo_i <= hi_i else max(0, min(n - 1 - h, tot // 2))
+    j = max(0, min(n - 1 - w, tot - i))
+    cells = [(i + a, j + b) for a in range(h) for b in range(w)]
+    ring = [(i, j + b) for b in range(w)] + [(i + a, j + w - 1) for a in range(1, h)] + [(i + h - 1, j + b) for b in range(w - 2, -1, -1)] + [(i + a, j) for a in range(h - 2, 0, -1)]
+    ring_route = ring + [ring[0]]
+    exits = [q for q in ring if q[1] == j + w - 1 or q[0] == i + h - 1]
+    ex = draw(st.sampled_from(exits))
+    if ex[1] == j + w - 1:
+        corridor = [(ex[0], c_) for c_ in range(ex[1], n)] + [(r_, n - 1) for r_ in range(ex[0] + 1, n)]
+    else:
+        corridor = [(r_, ex[1]) for r_ in range(ex[0], n)] + [(n - 1, c_) for c_ in range(ex[1] + 1, n)]
+    goal = [n - 1, n - 1]
+    qs = [[list(q), goal] for q in ring] + [[goal, list(q)] for q in ring[:2]]
+    return {"n": n, "routes": [[list(q) for q in ring_route], [list(q) for q in corridor]], "queries": qs, "form0": draw(st.sampled_from([2, 2, 0, 1]))}
+
+
+def _ring_gadget_cases(sizes, dists):
+    """the same gadget, systematically: every ring orientation x exit cell x distance of the ring from the goal around the wrap values"""
+    def cases(shard, nshards):
+        k = 0
+        for n in sizes:
+            for D in dists:
+                for tall in (False, True):
+                    h, w = (3, 2) if tall else (2, 3)
+                    tot = 2 * (n - 1) - D
+                    if tot < 0:
+                        continue
+                    for pos in (0, 1):
+                        lo_i, hi_i = max(0, tot - (n - 1 - w)), min(n - 1 - h, tot)
+                        if lo_i > hi_i:
+                            continue
+                        i = lo_i if pos == 0 else (lo_i + hi_i) // 2
+                        j = tot - i
+                        ring = [(i, j + b) for b in range(w)] + [(i + a, j + w - 1) for a in range(1, h)] + [(i + h - 1, j + b) for b in range(w - 2, -1, -1)] + [(i + a, j) for a in range(h - 2, 0, -1)]
+                        for ex in [q for q in ring if q[1] == j + w - 1 or q[0] == i + h - 1]:
+                            k += 1
+                            if k % nshards != shard:
+                                continue
+                            if ex[1] == j + w - 1:
+                                corridor = [(ex[0], c_) for c_ in range(ex[1], n)] + [(r_, n - 1) for r_ in range(ex[0] + 1, n)]
+                            else:
+                                corridor = [(r_, ex[1]) for r_ in range(ex[0], n)] + [(n - 1, c_) for c_ in range(ex[1] + 1, n)]
+                            goal = [n - 1, n - 1]
+                            yield {"n": n, "routes": [[list(q) for q in ring + [ring[0]]], [list(q) for q in corridor]],
+                                   "queries": [[list(q), goal] for q in ring] + [[goal, list(ring[0])]], "form0": 2 if n <= 128 else 1}
+
+    return cases
 
 
 def _exhaustive_medium(shard: int, nshards: int):
@@ -405,7 +482,10 @@ def subs(tier: str):
             examples=150 if quick else 2500,
         ),
         Sub(name="query-sequences", check=check_sequence, kind="hypothesis", strategy=lambda: _sequences(10 if quick else 20), examples=60 if quick else 1000),
-        Sub(name="competing-routes-at-scale", check=check_routes, kind="hypothesis", strategy=lambda: _routes([61, 47, 80, 100] if quick else [61, 47, 80, 100, 127, 150]), examples=3 if quick else 30),
+        Sub(name="competing-routes-at-scale", check=check_routes, kind="hypothesis", strategy=lambda: _routes([70, 61, 100, 127, 47, 80] if quick else [70, 61, 100, 127, 47, 80, 128, 150]), examples=4 if quick else 40),
         Sub(name="same-flags-other-shape", check=check_twins, kind="hypothesis", strategy=_twins_strategy, examples=15 if quick else 300),
+        Sub(name="ring-at-the-wrap-distance", check=check_routes, kind="hypothesis", strategy=_ring_gadget, examples=6 if quick else 200),
+        Sub(name="ring-at-the-wrap-distance-systematic", check=check_routes, kind="exhaustive",
+            cases=_ring_gadget_cases([70, 127] if quick else [66, 70, 100, 127, 128, 200], list(range(124, 135)) if quick else list(range(120, 140)) + list(range(250, 262)))),
         Sub(name="generated-mazes-with-metadata", check=check_generated, kind="hypothesis", strategy=lambda: _generated(7 if quick else 10), examples=40 if quick else 600),
     ]
